@@ -30,7 +30,7 @@ THEOREMS = ["Mesa.Copy." + t for t in (
         "C19_agentset_frame", "C19_agentset_original_untouched_by_copy", "C19_agentset_copy_detached")] + [
     "Mesa.CopyOcc." + t for t in (
         "C19_space_reachable", "C19_space_mirror", "C19_space_capacity", "C19_space_closure", "C19_space_never_share",
-        "C19_space_copy_faithful", "C19_space_copy_mentions_only_new_objects", "C19_space_copied_agents_point_into_copy", "C19_space_ghost_copy_points_outside",
+        "C19_space_copy_faithful", "C19_space_copy_same_occupancy", "C19_space_copy_mentions_only_new_objects", "C19_space_copied_agents_point_into_copy", "C19_space_ghost_copy_points_outside",
         "C19_space_frame", "C19_space_original_untouched_by_copy", "C19_space_copy_detached")]
 COUNTS = {"quick": 400, "thorough": 100000}
 HEADER_LINES = 1
